@@ -1,13 +1,13 @@
 SPECIFICATION Spec
 CONSTANTS
-  EFlows = {"A", "B"}
-  NFlows = {"C"}
-  MaxEvents = 10
-  MaxConns = 6
-  MaxT6 = 2
-  MaxPk = 8
+  EFlows = {"A"}
+  NFlows = {}
+  MaxEvents = 5
+  MaxConns = 5
+  MaxT6 = 1
+  MaxPk = 5
   RRs = {"cpr0"}
-  SecondConn = FALSE
+  SecondConn = TRUE
   ScopeSensitive = FALSE
-  Faults = {"wfail", "rexit", "dialfail", "tick"}
+  Faults = {"rexit", "tick"}
 INVARIANTS NoDup Conservation HeldAreInitials BatchOrdered CompleteAtEnd NameRoutes OneTransport Emit
